@@ -10,7 +10,7 @@
 From Coq Require Import List.
 Import ListNotations.
 From BD.Agent Require Import Run RunProofs.
-From BD.Sched Require Import Model Proofs ProofsFinal ProofsStop Examples Examples2.
+From BD.Sched Require Import Model Proofs ProofsFinal ProofsStop Replay Replay2 Replay2Proofs Examples Examples2.
 
 (* At the moment the handlers are chosen (loop left, every worker gone - pc = LExited), in every reachable state:
    the run is reported finished iff every step is finished or skipped; *)
@@ -76,6 +76,16 @@ Theorem C04_dag_precondition : forall e : env, e_gaccept e = true -> e_has_pre e
   Run.run e = ([ABuildGraph; AEvalPre; ACancelAll], true).
 Proof. exact unmet_dag_precondition. Qed.
 Print Assumptions C04_dag_precondition.
+
+(* The tie to the implementation is sound in this direction: a run of the real scheduler that the power-set acceptor
+   accepts (stage 0) comes with a REACHABLE state of the model that is Done and shows the observed final node table,
+   handler states, Schedule error and Status - so the theorems above, which hold in every reachable state, apply to it.
+   (That real traces ARE accepted is what the correspondence measures on every run of the check.) *)
+Theorem C04_accept_sound : forall c ivl rivl eps tmo_at fin hfin tr err status k,
+  replay2 c ivl rivl eps tmo_at fin hfin tr err status = (0, 0, k) ->
+  exists s, Reach c s /\ final2_ok c fin hfin s err status = true.
+Proof. exact replay2_sound. Qed.
+Print Assumptions C04_accept_sound.
 
 (* Non-vacuity and history.  (1) A stop of two executing steps: both end canceled, the outcome at HBegin is canceled,
    the handlers are [onCancel; onExit], Done is reached. *)
